@@ -100,8 +100,18 @@ CLAIMS = {
 }
 _PENDING = 'check under construction in this session (see DESIGN.md section 4); not claimed until its rule is admitted'
 NA = {}
-NA['C09'] = ('refinement of an ideal ordered map over operation histories with live iterators: its mechanisms are co-located with the mutations they protect inside single template functions; '
-             'no sound structural necessary condition was found that is not either compiler-enforced or a frozen-fragment match (DESIGN.md section 4, C09)')
+# C09 was not applicable until the last session; it is now claimed NARROWLY (five structural necessary conditions, DESIGN.md section 4, C09)
+CLAIMS['C09'] = {
+    'technique': 'static analysis: must-precede / must-follow pairing on the CFG of a forced full template instantiation (iteration list vs free list, move operations, put path), '
+                 'lifecycle pairing of iterator registration with null-owner escape edges, sibling agreement of the index-width dispatch arms',
+    'text': 'Decides five structural necessary conditions of C09 on a forced full instantiation of HashtableBase/HashtableMid/Hashtable/HashtableIteratorImp: an entry is returned to the free list only after '
+            'RemoveIterationEntry() was called for it on every path (the only place where live iterators are moved off a dying entry); an entry taken out of the iteration list by a move operation is put back on '
+            'every path; every entry obtained from PutAuxAux() is linked into the iteration order by its caller; iterator constructors that take a table register with it on every path, the destructor '
+            'unregisters, and the copy assignment unregisters from the old owner before and registers with the new owner after it overwrites _owner; every dispatch on the table\'s index width selects '
+            'the same HashtableEntry<uintN> for the same constant. The refinement of an ideal ordered map over operation histories (contents, order, query results, what the iterator patch computes), '
+            'the sort routines, SwapContents, HashtableIteratorImp::SwapContentsAux and the auto-sorting variants are NOT decided.',
+    'note': 'Narrow: necessary conditions only; none is sufficient. One instantiation (int32 -> String) stands for the template: the rules read control structure and callee identity, which do not depend on the key/value types.'}
+
 
 # Clauses added after the adversarial round (DESIGN.md section 9); appended to the claim text of the property.
 ADDED = {
